@@ -72,8 +72,10 @@ def expected_cov(N, delta, r0, L0, l0):
 def check_family(ctx, aotools, N, rng, L0_inf=False):
     delta = float(10 ** rng.uniform(-3, 0.5))
     L0 = float(N * delta * 10 ** rng.uniform(-1.3, 1.7))     # L0 < delta ... L0 >> N delta
-    if L0_inf:
+    if L0_inf is True:
         L0 = float("inf")                                    # the Kolmogorov limit of the spectrum
+    elif L0_inf:
+        L0 = float(L0_inf)                                   # a huge finite number passed in place of inf
     base = (float(10 ** rng.uniform(-2, 0.5)), float(delta * 10 ** rng.uniform(-3, 0.8)))
     # each variant directly follows the base parameters (exercises even a one-entry cache with an incomplete key)
     variants = [base, (base[0] * float(rng.uniform(1.5, 4)), base[1]), base, (base[0], base[1] * float(rng.uniform(2, 6)))]
@@ -195,7 +197,7 @@ def check_family(ctx, aotools, N, rng, L0_inf=False):
             ctx.check(float(D_lo.min()) >= -1e-11 * (sc_lo + sc_hi), "ft_sh_phase_screen:structure_function_decreases",
                       "sub-harmonics lower a structure-function value by %.3g" % float(-D_lo.min()), wit)
             # closer to the analytic curve at large separations, where sub-harmonics are meant to act
-            if N * delta <= L0 / 2 and np.isfinite(L0):
+            if N * delta <= L0 / 2 and np.isfinite(L0) and L0 < 1e20:
                 dv = np.diag(cov)
                 D_hi = dv[:, None] + dv[None, :] - 2 * cov
                 p0 = 0
@@ -280,6 +282,8 @@ def run(ctx, spec):
         check_family(ctx, aotools, N, rng)
     if spec["shard"] % 4 == 1:
         check_family(ctx, aotools, int(rng.choice([6, 8, 10])), rng, L0_inf=True)
+    if spec["shard"] % 4 == 3:
+        check_family(ctx, aotools, int(rng.choice([6, 8, 10])), rng, L0_inf=[1e30, 1e90, 1e150, 1e300][(spec["shard"] // 4) % 4])
     if spec["shard"] % 4 == 2:
         # "all draws of the generator": unseeded screens come from the full ensemble, not from a small set of seeds
         from aomon.core import digest
